@@ -88,7 +88,7 @@ func hasSleep(m any) bool {
 
 // runDec decodes b with kind k, evaluates the monitors and (if record) adds a
 // correspondence case.
-func (rn *runner) runDec(k *kind, b []byte, record bool, measure bool, origin string) {
+func (rn *runner) runDecObs(k *kind, b []byte, record bool, measure bool, origin string) string {
 	c := rn.c
 	rp := replay{Kind: k.name, Op: "dec", Hex: hex.EncodeToString(b), Mode: origin}
 	var out any
@@ -136,17 +136,23 @@ func (rn *runner) runDec(k *kind, b []byte, record bool, measure bool, origin st
 		}
 		if p2 != "" || e2 != nil {
 			c.Fail(sig, fmt.Sprintf("re-encoding the message decoded from %d bytes failed: %v %s", len(b), e2, short(p2)), rp)
-			return
+			return obs
 		}
 		out2, e3, p3 := decode(k, b2)
 		if p3 != "" || e3 != nil {
 			c.Fail(sig, fmt.Sprintf("decoded message does not survive re-encoding: %v %s", e3, short(p3)), rp)
-			return
+			return obs
 		}
 		if k.canon(unwrap(out)) != k.canon(unwrap(out2)) {
 			c.Fail(sig, "decoded message re-encodes to a different message: "+short(k.canon(unwrap(out)))+" vs "+short(k.canon(unwrap(out2))), rp)
 		}
 	}
+	return obs
+}
+
+// runDec is runDecObs without the observed-result string.
+func (rn *runner) runDec(k *kind, b []byte, record bool, measure bool, origin string) {
+	rn.runDecObs(k, b, record, measure, origin)
 }
 
 // runEnc encodes m, compares with the model (record) and checks the round trip
@@ -497,6 +503,7 @@ func main() {
 		} else if strings.HasPrefix(r.Mode, "fixed:") {
 			rn.fixedWitnesses()
 			rn.boundaryWitnesses()
+			rn.truncationSweeps()
 		} else {
 			m := k.gen(vh.NewRand(r.CaseSeed), r.Mode == "over")
 			b := rn.runEnc(k, m, r.Mode == "valid", true, r)
@@ -510,8 +517,9 @@ func main() {
 
 	rn.fixedWitnesses()
 	rn.boundaryWitnesses()
+	rn.truncationSweeps()
 
-	nValid, nOver, nMal, nRand := c.N(5, 60), c.N(2, 20), c.N(10, 300), c.N(3, 60)
+	nValid, nOver, nMal, nRand := c.N(5, 60), c.N(2, 20), c.N(7, 300), c.N(3, 60)
 	nMonitor := c.N(150, 4000)
 	for _, k := range ks {
 		var pool [][]byte
